@@ -28,21 +28,152 @@ contract("mol_gen.MolGen.weight", is_property=True, props=["C05", "C13"],
 _GROW_FRAME = ("unchanged_except('MolGen._mol', my_mol) and unchanged_except('MolGen.graph', my_mol) and unchanged_except('MolGen.bond_descriptors', my_mol) "
                "and lists_unchanged_except(old(my_mol.bond_descriptors)) and unchanged_except('NxGraph.val', old(my_mol.graph))")
 
+# ---- invariant of a parsed stochastic object (established by Stochastic.__init__ / _validate, which is string surgery outside the
+# engine's reach: assumed here, checked on every parsed object by the bounded C02 / C15 drivers) ------------------------------------
+specfn('''
+def bonds_of_tokens(bonds, idx, tokens):
+    return (len(idx) == len(bonds)
+            and forall(lambda k: implies(0 <= k and k < len(bonds), 0 <= idx[k] and idx[k] < len(tokens)
+                                         and exists(lambda j: 0 <= j and j < len(tokens[idx[k]].bond_descriptors) and tokens[idx[k]].bond_descriptors[j] is bonds[k]))))
+''')
+specfn('''
+def stoch_inv(s):
+    return (bonds_of_tokens(s.repeat_bonds, s.repeat_bond_token_idx, s.repeat_tokens)
+            and bonds_of_tokens(s.end_bonds, s.end_bond_token_idx, s.end_tokens)
+            and forall(lambda k: implies(0 <= k and k < len(s.repeat_tokens), token_wf(s.repeat_tokens[k]) and token_gen_ok(s.repeat_tokens[k])))
+            and forall(lambda k: implies(0 <= k and k < len(s.end_tokens), token_wf(s.end_tokens[k]) and token_gen_ok(s.end_tokens[k])))
+            and weights_ok(s.repeat_bonds) and weights_ok(s.end_bonds) and notation_owned(s))
+''')
+# everything reachable from a parsed object belongs to the notation, not to a generator (owner is ghost state: only MolGen.__init__,
+# deepcopy and the list operations inside generation create generator-owned objects)
+specfn('''
+def bonds_notation(bonds):
+    return (owner(bonds) == NOTATION
+            and forall(lambda k: implies(0 <= k and k < len(bonds), owner(bonds[k]) == NOTATION
+                                         and (is_none(bonds[k].transitions) or owner(bonds[k].transitions) == NOTATION))))
+''')
+specfn('''
+def tokens_notation(tokens):
+    return (owner(tokens) == NOTATION
+            and forall(lambda k: implies(0 <= k and k < len(tokens), owner(tokens[k]) == NOTATION and owner(tokens[k].bond_descriptors) == NOTATION)))
+''')
+specfn('''
+def notation_owned(s):
+    return (owner(s) == NOTATION and bonds_notation(s.repeat_bonds) and bonds_notation(s.end_bonds) and tokens_notation(s.repeat_tokens) and tokens_notation(s.end_tokens)
+            and owner(s.repeat_bond_token_idx) == NOTATION and owner(s.end_bond_token_idx) == NOTATION
+            and owner(s.left_terminal) == NOTATION and owner(s.right_terminal) == NOTATION)
+''')
+
+# ghost: the token attached by the current step (so that a postcondition can name it)
+from pyvc.engine import ghost as _ghost
+_ghost("d2_token", Ref("SmilesToken"))
+_STEP_GHOSTS = ["ghost.d2_token"]
+
+# stoch_inv(self), clause by clause (the labels are the tags a proof names when it needs one of them)
+_STOCH_REQ = {
+    "bonds_of_tokens(self.repeat_bonds, self.repeat_bond_token_idx, self.repeat_tokens)": "inv-repeat-bonds-belong-to-their-tokens",
+    "bonds_of_tokens(self.end_bonds, self.end_bond_token_idx, self.end_tokens)": "inv-end-bonds-belong-to-their-tokens",
+    "forall(lambda k: implies(0 <= k and k < len(self.repeat_tokens), token_wf(self.repeat_tokens[k]) and token_gen_ok(self.repeat_tokens[k])))": "inv-repeat-tokens-well-formed",
+    "forall(lambda k: implies(0 <= k and k < len(self.end_tokens), token_wf(self.end_tokens[k]) and token_gen_ok(self.end_tokens[k])))": "inv-end-tokens-well-formed",
+    "weights_ok(self.repeat_bonds) and weights_ok(self.end_bonds)": "inv-weights-non-negative",
+    "notation_owned(self)": "inv-notation-owned",
+}
+_CCW, _MI, _AO = "choose_compatible_weight:", "MolGen.__init__:", "MolGen.attach_other:"
+_OWN = ["requires:inv-notation-owned", "requires:representation-invariant-kept"]        # who owns what: separates generator lists from notation lists
+
+
+def pick_site(bds, bond, idx_var):
+    """the clauses that state C08 at one weighted decision `idx_var = choose_compatible_weight(bds, bond, rng)`, in the caller's terms;
+    returns {clause: label} and {label: uses}"""
+    none = bond == "None"
+    cand_ok = "True" if none else f"compat_spec({bond}, {bds}[last_cand[k]])"
+    w = f"{bds}[last_cand[k]].weight"
+    w0 = f"{bds}[last_cand[0]].weight"
+    cl = {
+        f"last_n > 0 and forall(lambda k: implies(0 <= k and k < last_n, 0 <= last_cand[k] and last_cand[k] < len({bds}) and {cand_ok}))": "candidates-are-compatible-positions",
+        f"forall(lambda a, b: implies(0 <= a and a < b and b < last_n, last_cand[a] < last_cand[b]))": "candidates-in-written-order",
+        f"implies(not forall(lambda k: implies(0 <= k and k < last_n, {w} == {w0})), last_norm > 0 and forall(lambda k: implies(0 <= k and k < last_n, last_p[k] * last_norm == {w})))": "picked-in-proportion-to-the-written-weights",
+        f"implies(forall(lambda k: implies(0 <= k and k < last_n, {w} == {w0})), forall(lambda a, b: implies(0 <= a and a < last_n and 0 <= b and b < last_n, last_p[a] == last_p[b])))": "equal-weights-mean-a-uniform-pick",
+        f"0 <= last_pick and last_pick < last_n and last_p[last_pick] > 0 and {idx_var} == last_cand[last_pick] and last_rng == rng and choices == at_site_choices + 1": "zero-probability-never-taken-one-draw-from-the-supplied-generator",
+    }
+    if none:
+        cl[f"last_n == len({bds}) and forall(lambda k: implies(0 <= k and k < last_n, last_cand[k] == k))"] = "every-open-descriptor-is-a-candidate"
+    else:
+        cl[f"forall(lambda i: implies(0 <= i and i < len({bds}) and i < last_cand[0], not compat_spec({bond}, {bds}[i]))) "
+           f"and forall(lambda k, i: implies(0 <= k and k + 1 < last_n and last_cand[k] < i and i < last_cand[k + 1], not compat_spec({bond}, {bds}[i]))) "
+           f"and forall(lambda i: implies(last_cand[last_n - 1] < i and i < len({bds}), not compat_spec({bond}, {bds}[i])))"] = "every-compatible-position-is-a-candidate"
+    return cl
+
+
+def site(prefix, clauses):
+    return {c: f"{prefix}:{lab}" for c, lab in clauses.items()}
+
+
+_ghost("at_site_choices", INT)          # number of rng.choice calls before the decision under consideration
+
 # ---- closure: one growth step ----------------------------------------------------------------------------------------------
+_A1 = "starting_bond_idx = choose_compatible_weight(my_mol.bond_descriptors, None, rng)"
+_B1 = "connecting_bond_idx = rng.choice(range(len(prob)), p=prob)"
+_B2 = "connecting_bond_idx = choose_compatible_weight(self.repeat_bonds, starting_bond, rng)"
+_C0 = "if connecting_bond_idx < len(self.repeat_bonds):"
+_C1 = "connecting_bond_idx = token.bond_descriptors.index(connecting_bond)"
+_D = "my_mol = my_mol.attach_other(starting_bond_idx, new_mol, connecting_bond_idx)"
+_S_A = site("open-descriptor", pick_site("my_mol.bond_descriptors", "None", "starting_bond_idx"))
+_S_B2 = site("partner", pick_site("self.repeat_bonds", "starting_bond", "connecting_bond_idx"))
+_S_B1 = site("listed-partner", {
+    "last_n == len(starting_bond.transitions) and forall(lambda k: implies(0 <= k and k < last_n, last_cand[k] == k and last_p[k] * starting_bond.weight == starting_bond.transitions[k]))": "listed-transition-weights-are-the-probabilities",
+    "0 <= last_pick and last_pick < last_n and last_p[last_pick] > 0 and connecting_bond_idx == last_pick and last_rng == rng and choices == at_site_choices + 1": "zero-probability-never-taken-one-draw-from-the-supplied-generator"})
+_S_C0 = site("partner-token", {
+    "implies(last_cand[last_pick] < len(self.repeat_bonds), connecting_bond is self.repeat_bonds[last_cand[last_pick]] "
+    "and token is self.repeat_tokens[self.repeat_bond_token_idx[last_cand[last_pick]]])": "index-below-the-repeat-count-is-a-repeat-descriptor-of-its-token",
+    "implies(last_cand[last_pick] >= len(self.repeat_bonds), connecting_bond is self.end_bonds[last_cand[last_pick] - len(self.repeat_bonds)] "
+    "and token is self.end_tokens[self.end_bond_token_idx[last_cand[last_pick] - len(self.repeat_bonds)]])": "index-beyond-is-an-end-group-descriptor-of-its-token"})
+_S_C1 = site("partner-token", {"token.bond_descriptors[connecting_bond_idx] is connecting_bond": "the-picked-descriptor-is-located-in-its-token"})
+_S_D = site("bond", {
+    "bonds == old(bonds) + 1": "one-bond-per-step",
+    "bond_a[old(bonds)] == val(starting_bond.atom_bonding_to) and bond_b[old(bonds)] == val(connecting_bond.atom_bonding_to) + old(natoms(my_mol._mol))": "joins-the-atoms-of-the-two-picked-descriptors",
+    "bond_t[old(bonds)] == starting_bond.bond_type and bond_t[old(bonds)] == connecting_bond.bond_type and compat_spec(starting_bond, connecting_bond)": "picked-descriptors-are-compatible-and-give-the-bond-order"})
+
+_ARU = {
+    "result is my_mol": "grows-the-molecule-it-was-given",
+    "molgen_wf(my_mol)": "representation-invariant-kept",
+    "weights_ok(my_mol.bond_descriptors)": "open-weights-stay-non-negative",
+    "units == old(units) + 1 and mass_after[units] == mass(my_mol._mol) and open_after[units] == len(my_mol.bond_descriptors)": "one-unit-recorded",
+    "forall(lambda q: implies(q != units, mass_after[q] == old(mass_after[q]) and open_after[q] == old(open_after[q])))": "earlier-units-unchanged",
+    "draws == old(draws)": "no-draw-in-a-growth-step",
+    _GROW_FRAME: "only-the-growing-molecule-changes",
+    "bonds == old(bonds) + 1": "one-bond-per-step",
+    "natoms(my_mol._mol) == old(natoms(my_mol._mol)) + natoms(smiles_mol(frag_text(d2_token))) and "
+    "mass(my_mol._mol) == old(mass(my_mol._mol)) + mass(smiles_mol(frag_text(d2_token)))": "grows-by-one-whole-token",
+}
+_ARU_USES = {
+    "representation-invariant-kept": [_AO + "representation-invariant"],
+    "open-weights-stay-non-negative": ["requires", _MI + "copies-carry", _MI + "one-open", _AO + "weights-stay"],
+    "one-unit-recorded": [], "earlier-units-unchanged": [], "no-draw-in-a-growth-step": [], "grows-the-molecule-it-was-given": [],
+    "only-the-growing-molecule-changes": [_AO + "owners"] + _OWN,
+    "one-bond-per-step": [], "grows-by-one-whole-token": [],
+}
+# the decision sites are proved with everything known at that point
+
+_SITE_PROPS = {**{l: ["C08"] for l in list(_S_A.values()) + list(_S_B1.values()) + list(_S_B2.values()) + list(_S_C0.values()) + list(_S_C1.values())},
+               **{l: ["C04"] for l in _S_D.values()}}
+
 contract("stochastic.Stochastic.generate.generate_repeat_units_and_finalize.add_repeat_unit",
-         props=["C07"], trusted=True,
-         why_trusted="not yet verified by the engine (MolGen.__init__ and list.index inside); its decision sites and attachments are monitored at run time (C04 / C08 drivers)",
+         props=["C07", "C08", "C04", "C05"],
          params=dict(my_mol=Ref("MolGen")), captured=dict(self=Ref("Stochastic"), rng=GENERATOR), returns=Ref("MolGen"),
-         requires=["molgen_wf(my_mol)"],
-         ensures=["result is my_mol", "molgen_wf(my_mol)",
-                  "units == old(units) + 1 and mass_after[units] == mass(my_mol._mol) and open_after[units] == len(my_mol.bond_descriptors)",
-                  "forall(lambda q: implies(q != units, mass_after[q] == old(mass_after[q]) and open_after[q] == old(open_after[q])))",
-                  "draws == old(draws)",
-                  _GROW_FRAME],
-         raises_may={"RuntimeError": "True", "ValueError": "True", "Exception": "True"},
-         modifies=["MolGen._mol", "MolGen.graph", "list", "NxGraph.val", "EditableMol.val", "MolGen.bond_descriptors",
-                   "ghost.units", "ghost.mass_after", "ghost.open_after", "ghost.bonds", "ghost.bond_a", "ghost.bond_b", "ghost.bond_t",
-                   "ghost.choices", "ghost.last_p", "ghost.last_n", "ghost.last_pick", "ghost.last_rng", "ghost.last_cand", "ghost.last_norm"])
+         requires=["molgen_wf(my_mol)", "weights_ok(my_mol.bond_descriptors)"] + list(_STOCH_REQ),
+         ensures=list(_ARU), labels={**_ARU, **_STOCH_REQ, **_S_A, **_S_B1, **_S_B2, **_S_C0, **_S_C1, **_S_D},
+         raises_may={"RuntimeError": "True", "ValueError": "True", "IndexError": "True", "TypeError": "True"},
+         assert_at={_A1: list(_S_A), _B1: list(_S_B1), _B2: list(_S_B2), _C0: list(_S_C0), _C1: list(_S_C1), _D: list(_S_D)},
+         ghost_before={_A1: ["at_site_choices = choices"], _B1: ["at_site_choices = choices"], _B2: ["at_site_choices = choices"]},
+         ghost_at={_C1: ["d2_token = token"]},
+         ghost_on_return=["units = units + 1", "mass_after[units] = mass(my_mol._mol)", "open_after[units] = len(my_mol.bond_descriptors)"],
+         clause_props={**_SITE_PROPS, "one-bond-per-step": ["C04", "C05"], "grows-by-one-whole-token": ["C05"], "one-unit-recorded": ["C07"], "earlier-units-unchanged": ["C07"],
+                       "no-draw-in-a-growth-step": ["C07", "C09"], "only-the-growing-molecule-changes": ["C10", "C07"], "frame": ["C10"], "cover": ["C07", "C08", "C04"],
+                       "grows-the-molecule-it-was-given": ["C07"], "representation-invariant-kept": ["C04", "C07"], "open-weights-stay-non-negative": ["C08"]},
+         modifies=["MolGen._mol@my_mol", "MolGen.graph@my_mol", "list@my_mol.bond_descriptors",
+                   "ghost.units", "ghost.mass_after", "ghost.open_after", "ghost.bonds", "ghost.bond_a", "ghost.bond_b", "ghost.bond_t", "ghost.at_site_choices",
+                   "ghost.choices", "ghost.last_p", "ghost.last_n", "ghost.last_pick", "ghost.last_rng", "ghost.last_cand", "ghost.last_norm"] + _STEP_GHOSTS)
 
 # ---- closure: capping (on whatever molecule it is given) --------------------------------------------------------------------
 contract("stochastic.Stochastic.generate.finalize_mol",
@@ -54,7 +185,7 @@ contract("stochastic.Stochastic.generate.finalize_mol",
                   "forall(lambda q: mass_after[q] == old(mass_after[q]) and open_after[q] == old(open_after[q]))",
                   _GROW_FRAME],
          raises_may={"RuntimeError": "True", "ValueError": "True", "Exception": "True"},
-         modifies=["MolGen._mol", "MolGen.graph", "list", "NxGraph.val", "EditableMol.val", "MolGen.bond_descriptors",
+         modifies=["MolGen._mol@my_mol", "MolGen.graph@my_mol", "list@my_mol.bond_descriptors",
                    "ghost.bonds", "ghost.bond_a", "ghost.bond_b", "ghost.bond_t",
                    "ghost.choices", "ghost.last_p", "ghost.last_n", "ghost.last_pick", "ghost.last_rng", "ghost.last_cand", "ghost.last_norm"])
 
@@ -75,21 +206,21 @@ contract("stochastic.Stochastic.generate.generate_repeat_units_and_finalize",
          params=dict(my_mol=Ref("MolGen")), captured=dict(self=Ref("Stochastic"), rng=GENERATOR,
                                                           finalize_mol=("func", "stochastic.Stochastic.generate.finalize_mol")),
          returns=Ref("MolGen"),
-         requires=["molgen_wf(my_mol)", "not is_none(self.distribution)", "dist_inv(self.distribution)"],
+         requires=["molgen_wf(my_mol)", "not is_none(self.distribution)", "dist_inv(self.distribution)", "weights_ok(my_mol.bond_descriptors)"] + list(_STOCH_REQ),
          ensures=list(_C07), labels=_C07,
          clause_props={"target-drawn-from-the-declared-law-with-the-declared-parameters": ["C09", "C07"], "cover": ["C07", "C09"]},
          raises_may={"RuntimeError": "True", "ValueError": "True", "NotImplementedError": "True", "Exception": "True"},
-         modifies=["MolGen._mol", "MolGen.graph", "list", "NxGraph.val", "EditableMol.val", "MolGen.bond_descriptors",
+         modifies=["MolGen._mol@my_mol", "MolGen.graph@my_mol", "list@my_mol.bond_descriptors",
                    "ghost.units", "ghost.mass_after", "ghost.open_after", "ghost.bonds", "ghost.bond_a", "ghost.bond_b", "ghost.bond_t",
                    "ghost.draws", "ghost.last_draw", "ghost.last_draw_rng", "ghost.last_draw_family", "ghost.last_draw_p1", "ghost.last_draw_p2",
-                   "ghost.choices", "ghost.last_p", "ghost.last_n", "ghost.last_pick", "ghost.last_rng", "ghost.last_cand", "ghost.last_norm"],
+                   "ghost.choices", "ghost.last_p", "ghost.last_n", "ghost.last_pick", "ghost.last_rng", "ghost.last_cand", "ghost.last_norm", "ghost.at_site_choices", "ghost.d2_token"],
          loops={1: dict(
              anchor="True",
-             modifies=["MolGen._mol", "MolGen.graph", "list", "NxGraph.val", "EditableMol.val", "MolGen.bond_descriptors"],
+             modifies=["MolGen._mol@my_mol", "MolGen.graph@my_mol", "list@my_mol.bond_descriptors"],
              ghost_modifies=["units", "mass_after", "open_after", "bonds", "bond_a", "bond_b", "bond_t",
-                             "choices", "last_p", "last_n", "last_pick", "last_rng", "last_cand", "last_norm"],
+                             "choices", "last_p", "last_n", "last_pick", "last_rng", "last_cand", "last_norm", "at_site_choices", "d2_token"],
              locals={"finalized_my_mol": Ref("MolGen")},
-             inv=["my_mol is entry(my_mol) and molgen_wf(my_mol)",
+             inv=["my_mol is entry(my_mol) and molgen_wf(my_mol) and weights_ok(my_mol.bond_descriptors)",
                   "draws == old(draws) + 1 and last_draw == target_mol_weight and last_draw_rng == rng",
                   "last_draw_family == doc_family(self.distribution) and last_draw_p1 == doc_p1(self.distribution) and last_draw_p2 == doc_p2(self.distribution)",
                   "starting_mol_weight == old(mass(my_mol._mol))",
